@@ -2,7 +2,7 @@
 from tsg.facts import DB, strip, txt, callee, call_args, call_object, walk, const_val, short, callee_node
 from tsg.iotokens import Tokenizer, normalize, compare, render, field_in
 from tsg.typestate import member_writes, member_of, must_pass_after
-from tsg.flow import cond_edges_dominating
+from tsg.flow import is_reachable, cond_edges_dominating
 from tsg.build import AnalysisBroken
 
 GRIDS = ["Global", "Sequence", "LocalPolynomial", "Wavelet", "Fourier"]
@@ -396,6 +396,67 @@ def run(chk):
                    "" if ok else "the order in which the writer walks the list cannot be established" if direction == "unknown" else "after write + read the list is in the opposite order: ties between equally weighted tensors are broken differently and a second write differs",
                    "reverse on exactly one side")
     chk.floor("C06-D8.listorder", nlist, 2, "serialised forward_list element types (both modes)")
+
+    # ------------------------------------------------------------------ D9 counts the reader assumes
+    chk.rule("C06-D9.counts", "a 2-D member that the reader restores with a strip count taken from the restored points is written only when it holds exactly that many strips: "
+                              "coefficient arrays are kept at one strip per loaded point by the recompute discipline (C01-D1); any other member (a lazily invalidated cache) "
+                              "must be written under a guard that compares its strip count with the number of points; the I/O primitives never touch element 0 of an empty vector")
+    COEFF = {"surpluses": "one strip per loaded point (C01-D1: every change of the point set is followed by a recompute / assignment)",
+             "coefficients": "one strip per loaded point (C01-D1)", "fourier_coefs": "two blocks of one strip per loaded point (C01-D1)"}
+    ncount = 0
+    for rd in [f for fs_ in db.load_all().values() for f in fs_ if "GridReaderVersion5" in f.key and short(f.name) == "read"]:
+        for q in rd.walk():
+            if q.get("k") not in ("BinaryOperator", "CXXOperatorCallExpr") or q.get("op") != "=":
+                continue
+            ch = [c for c in q.get("c", []) if isinstance(c, dict)]
+            call = next((x for x in walk(ch[-1]) if (callee(x) or "").endswith("IO::readData2D")), None)
+            if call is None:
+                continue
+            lhs = strip(ch[-2])
+            mem = short(lhs.get("field") or "") if lhs is not None and lhs.get("k") == "MemberExpr" else None
+            cnt = call_args(call)[2]
+            if mem is None or not any((callee(x) or "").endswith("::getNumIndexes") for x in walk(cnt)):
+                continue
+            ncount += 1
+            chk.saw(rd)
+            if mem in COEFF:
+                chk.ob("C06-D9.counts", rd.key, "%s restored with %s strips" % (mem, txt(strip(cnt))), True, rd.loc(q), "invariant: " + COEFF[mem])
+                continue
+            # the writer of the same class
+            cls = rd.key.split("GridReaderVersion5<")[1].split(">")[0]
+            ok, detail = False, "no writer found"
+            for w in [f for f in db.fns(cls + "::write", required=False)]:
+                for c in w.calls():
+                    if (callee(c) or "").endswith("::writeVector") and short((strip(call_object(c)) or {}).get("field") or "") == mem:
+                        conds = [strip(e) for e, tr in cond_edges_dominating(w, c) if tr]
+                        exprs = list(conds)
+                        for e in conds:
+                            if e is not None and e.get("k") == "DeclRefExpr":
+                                d = next((v for v in w.locals().values() if v.get("did") == e.get("did")), None)
+                                exprs += [x for x in (d or {}).get("c", []) if isinstance(x, dict)]
+                        eq = [x for e in exprs for x in walk(e) if x.get("k") == "BinaryOperator" and x.get("op") == "==" and
+                              any((callee(y) or "").endswith("::getNumStrips") and short((strip(call_object(y)) or {}).get("field") or "") == mem for y in walk(x)) and
+                              any((callee(y) or "").endswith("::getNumIndexes") for y in walk(x))]
+                        ok = bool(eq)
+                        detail = "written under `%s`" % (txt(eq[0]) if eq else " && ".join(txt(e) for e in conds)[:100])
+            chk.ob("C06-D9.counts", rd.key, "%s restored with %s strips" % (mem, txt(strip(cnt))), ok, rd.loc(q), detail, "writer guard: %s.getNumStrips() == number of points" % mem)
+    chk.floor("C06-D9.counts", ncount, 6, "2-D members restored with a count taken from the points")
+    for f in db.all_functions(["SparseGrids/tsgIOHelpers.hpp"]):
+        if not short(f.name).startswith("write"):
+            continue
+        for q in f.walk():
+            el = None
+            if q.get("k") == "CXXOperatorCallExpr" and q.get("op") == "[]":
+                ch = [c for c in q.get("c", []) if isinstance(c, dict)]
+                if const_val(strip(ch[-1])) == 0 and "std::vector" in ((strip(ch[-2]) or {}).get("t") or ""):
+                    el = (q, strip(ch[-2]))
+            if el is None or not is_reachable(f, q):
+                continue
+            chk.saw(f)
+            nm = txt(el[1])
+            guards = [(txt(strip(e)).replace(" ", ""), tr) for e, tr in cond_edges_dominating(f, q)]
+            ok = any((t == "!%s.empty()" % nm and tr) or (t == "%s.empty()" % nm and not tr) or (t.startswith("%s.size()>" % nm) and tr) for t, tr in guards)
+            chk.ob("C06-D9.counts", f.key, "element 0 of `%s` read only when the vector is not empty" % nm, ok, f.loc(q), "guards %s" % guards[:3])
 
     # ------------------------------------------------------------------ D6 precision
     nprec = 0
